@@ -133,3 +133,68 @@ func VerifHarness_C01_LegacyOptions() {
 // the cached-answer path: an answer cached before the database was replaced (possibly while
 // the cache was switched off) is never returned for the new database
 func VerifHarness_C01_CachedOffOn() { VerifHarness_C05_OffOn() }
+
+// typo fallback on a long command text (raw matcher scores far below -100): scores stay in range
+func VerifHarness_C01_FuzzyLong() {
+	long := ""
+	for i := 0; i < 13; i++ {
+		long += "mmmmmmmmmm"
+	}
+	mk := func(cmd, desc string) Command {
+		c := Command{Command: cmd, Description: desc}
+		vFill(&c)
+		return c
+	}
+	db := &Database{Commands: []Command{mk(long+"qx", "mmmm"), mk("nn", "oo"), mk("qqxx", long)}}
+	db.BuildUniversalIndex()
+	thr := []int{0, -1000, -30}[verifIntRange("threshold", 0, 2)]
+	q := string([]byte{verifByte("c1"), verifByte("c2")})
+	verifAssume(q[0] >= 'p')
+	verifAssume(q[0] <= 'r')
+	verifAssume(q[1] >= 'w')
+	verifAssume(q[1] <= 'y')
+	limit := verifIntRange("limit", 1, 3)
+	res := db.SearchUniversal(q, SearchOptions{Limit: limit, UseFuzzy: true, FuzzyThreshold: thr, AllPlatforms: true})
+	c01Shape(db, res, limit, "fuzzy fallback, long text")
+	verifReach("checked")
+	if len(res) > 0 {
+		verifReach("several")
+	}
+}
+
+// the cached path with different limits for one query: seven matching entries, so that the
+// default limit (10), 5 and 3 all cut differently
+func VerifHarness_C01_CachedLimits() {
+	vConcreteWords = true
+	var cmds []Command
+	for i := 0; i < 12; i++ {
+		cmds = append(cmds, vCmd("aa "+string([]byte{'b', byte('a' + i)}), "cc", "", ""))
+	}
+	db := &Database{Commands: cmds}
+	db.BuildUniversalIndex()
+	db.buildTFIDFSearcher()
+	limits := []int{-3, 0, 3, 5, 10, 11}
+	monitored := verifBool("monitored")
+	var mdb *MonitoredDatabase
+	var cdb *CachedDatabase
+	if monitored {
+		mdb = NewMonitoredDatabase(db)
+		cdb = mdb.CachedDatabase
+	} else {
+		cdb = NewCachedDatabase(db)
+	}
+	for step := 0; step < 2; step++ {
+		l := limits[verifIntRange("limit", 0, len(limits)-1)]
+		var res []SearchResult
+		if monitored {
+			res = mdb.SearchWithOptionsAndMonitoring("aa", SearchOptions{Limit: l})
+		} else {
+			res = cdb.SearchWithOptionsAndCache("aa", SearchOptions{Limit: l})
+		}
+		c01Shape(cdb.Database, res, l, "cached answer, varying limit")
+		if len(res) > 0 {
+			verifReach("several")
+		}
+	}
+	verifReach("checked")
+}
